@@ -42,6 +42,9 @@ NewPublicKeyIsBad == 411
 
 \* world constants: cfg is a record with chain, unbond, move, jail, stakePeriod, initial and optionally lock, window, grace, minStake
 LockPeriod(cfg) == IF "lock" \in DOMAIN cfg THEN cfg.lock ELSE 34560
+\* ExecutorV3.RunTx turns LockStake away, at no cost and before the chain id is looked at, up to and including this block
+LockStakeFrom(cfg) == IF "lockFrom" \in DOMAIN cfg THEN cfg.lockFrom ELSE 10197360
+Unavailable == 124
 WindowOf(cfg) == IF "window" \in DOMAIN cfg THEN cfg.window ELSE 24
 GraceLen(cfg) == IF "grace" \in DOMAIN cfg THEN cfg.grace ELSE 120
 MinStakeOf(cfg, unit) == IF "minStake" \in DOMAIN cfg THEN Nat2A(cfg.minStake) ELSE Nat2A(1000) ** unit
@@ -230,6 +233,7 @@ RunVote(s, tx, h) ==
 RunTxS(s, tx, h, cfg) ==
    IF tx.type \in LedgerTypes THEN RunTx(s, tx, h, cfg.chain)
    ELSE IF ~tx.intact \/ Malleated(tx) THEN Reject(DecodeError, s)
+   ELSE IF tx.type = "LockStake" /\ h <= LockStakeFrom(cfg) THEN Reject(Unavailable, s)
    ELSE IF tx.chain # cfg.chain THEN Reject(WrongChainID, s)
    ELSE IF ~CoinExists(s, tx.gasCoin) THEN Reject(CoinNotExists, s)
    ELSE IF tx.multi /\ MultisigCode(s, tx) # OK THEN Reject(MultisigCode(s, tx), s)
